@@ -88,6 +88,23 @@ func (f *fakeSender) take() [][]byte {
 	return out
 }
 
+// hookSender is a transport whose first unicast runs a callback before it returns.
+type hookSender struct {
+	fakeSender
+	once   sync.Once
+	during func()
+}
+
+func (h *hookSender) GossipUnicast(dst mesh.PeerName, msg []byte) error {
+	h.fakeSender.GossipUnicast(dst, msg)
+	h.once.Do(func() {
+		if h.during != nil {
+			h.during()
+		}
+	})
+	return nil
+}
+
 func mkMsg(tag, size int) *message.Message {
 	return &message.Message{Payload: bytes.Repeat([]byte{byte(tag)}, size), TTL: uint32(tag)}
 }
@@ -257,6 +274,30 @@ func step(w []string, line string) string {
 		case "pflush":
 			peer.VerifFlush()
 			return fmt.Sprintf("sent=%s queued=%d", chunks(sender.take()), peer.VerifQueued())
+		case "pduring":
+			// pduring <k>: a message handed to the peer WHILE a flush is writing a frame to the transport (the
+			// transport's callback does the Send), then k further flushes with no other traffic: the late message
+			// must reach the transport once, after the first
+			k, _ := strconv.Atoi(w[1])
+			hs := &hookSender{}
+			p := cluster.VerifNewPeer(hs, 3)
+			hs.during = func() { p.Send(mkMsg(2, 5)) }
+			p.Send(mkMsg(1, 5))
+			p.VerifFlush()
+			for i := 0; i < k; i++ {
+				p.VerifFlush()
+			}
+			var ttls []string
+			for _, fr := range hs.take() {
+				f, err := message.DecodeFrame(fr)
+				if err != nil {
+					return "undecodable"
+				}
+				for _, m := range f {
+					ttls = append(ttls, strconv.Itoa(int(m.TTL)))
+				}
+			}
+			return "sent=" + strings.Join(ttls, ",") + fmt.Sprintf(" queued=%d", p.VerifQueued())
 		case "pconc":
 			// concurrent senders against a concurrently running flusher: every message must
 			// reach the transport exactly once and each sender's messages in order
